@@ -24,7 +24,7 @@ func init() {
 			"even seeds fault-free, odd seeds with natural bank failures (blocked destinations, vesting-locked base-account sources). After every BeginBlock, message and EndBlock: supply == sum of all balances; per block supply delta == coinbase events - burn events with the minter module the only minter and the distributor's main account the only burner; " +
 			"cumulative minted inside M-mint's window; (fault-free) burned coins within one unit of M-dist's burn entitlement; per custom message the accounts whose balance changed are among signer, fee collector, vesting module account and the addresses named in the message, the changes add up to zero, and a rejected message moves nothing but the signer's fee. " +
 			"non-trivial = the run minted, burned and executed accepted and rejected custom messages; distinct = hash of message kinds x routes, configuration shape, probes and outcome",
-		Quick:      Tier{Runs: 300, BudgetSec: 55},
+		Quick:      Tier{Runs: 900, BudgetSec: 55},
 		Thorough:   Tier{Runs: 20000, BudgetSec: 780},
 		RunSeed:    c01RunSeed,
 		Replay:     c01Replay,
